@@ -31,6 +31,8 @@ for d, label in (("seeded", "sub-agent change"), ("regressions", "reverted fix")
         moved = [a for a in meta.get("also", []) if meta.get("note") and e["checks"].get(a, {}).get("caught_by")]
         for chk, c in sorted(e["checks"].items()):
             tier = c.get("caught_by") or ("out of reach: stubbed component" if oor else "MISSED")
+            if tier == "MISSED" and meta.get("masked_by"):
+                tier = "masked by the later fix %s (the reverse alone has no visible effect any more)" % meta["masked_by"]
             if tier == "MISSED" and moved and chk == e.get("property"):
                 tier = "not this property's clause (see meta.json): caught under " + ", ".join(moved)
             tags = ", ".join(sorted(set((c.get(tier) or c.get("quick") or {}).get("tags", []))))
